@@ -57,6 +57,16 @@ def _outcome_ok(outcome, body_exc, raised, root):
     return "outcome:lost-or-changed"
 
 
+def _accepts_after_exit(ctx):
+    """After the block has been left nothing may be registered any more: a callback accepted
+    now could never be invoked (the teardown is over), contradicting 'invoked exactly once'."""
+    try:
+        ctx.add_teardown_callback(lambda: None)
+    except RuntimeError:
+        return False
+    return True
+
+
 # ---------------------------------------------------------------------------- H1
 def h1_params(tier):
     n = 3
@@ -185,6 +195,9 @@ def h1(a, tier):
     ctx = closed.get("ctx")
     if ctx is None or not ctx.closed:
         return FAIL("not-closed", "", summary)
+    if _accepts_after_exit(ctx):
+        return FAIL(f"registration-accepted-after-exit:raised={bool(excs)}:end={ENDS[end]}:nested={nested}",
+                    "add_teardown_callback() accepted on a context whose block has been left", summary)
     raised = [excs[i] for i in order if i in excs]
     sig = _outcome_ok(outcome, body_exc, raised, not nested)
     if sig:
@@ -214,14 +227,16 @@ H1 = Harness(
 
 # ---------------------------------------------------------------------------- H2
 ROUTES = ["add_teardown_callback(pass_exception=True)", "add_resource(teardown_callback=)",
-          "@context_teardown generator", "start_service_task finalizer"]
+          "@context_teardown generator", "start_service_task finalizer",
+          "add_resource(teardown_callback=) refused by ResourceConflict on its second type, then retried under a free name",
+          "add_resource(teardown_callback=) refused for an invalid name (never retried: callback must never run)"]
 
 
 def h2_params(tier):
     n = 3 if tier == "quick" else 4
     ps = [P("n", 0, n), P("end", 0, 1), P("nested", 0, 1)]
     for i in range(n):
-        ps += [P(f"route{i}", 0, 3), P(f"r{i}", 0, 1)]
+        ps += [P(f"route{i}", 0, 5), P(f"r{i}", 0, 1)]
     return ps
 
 
@@ -233,8 +248,8 @@ def h2(a, tier):
     nested = pick(a["nested"], 2)
     routes, raises = [], []
     for i in range(n):
-        routes.append(pick(a[f"route{i}"], 4))
-        raises.append(pick(a[f"r{i}"], 2) if routes[-1] != 3 else 0)
+        routes.append(pick(a[f"route{i}"], 6))
+        raises.append(pick(a[f"r{i}"], 2) if routes[-1] not in (3, 5) else 0)
     log, excs, received = [], {}, {}
     body_exc = BodyErr("body") if end else None
     holder = {}
@@ -275,6 +290,28 @@ def h2(a, tier):
                 finish(i)
 
             await gen()
+        elif r in (4, 5):
+
+            def cb():
+                log.append(("begin", i))
+                finish(i)
+
+            from asphalt.core import ResourceConflict
+
+            if r == 4:
+                ctx.add_resource(object(), f"taken{i}", [_RB])
+                try:
+                    ctx.add_resource(object(), f"taken{i}", [_RA, _RB], teardown_callback=cb)
+                    holder["refusal-missing"] = i
+                except ResourceConflict:
+                    pass
+                ctx.add_resource(object(), f"retry{i}", [_RA, _RB], teardown_callback=cb)
+            else:
+                try:
+                    ctx.add_resource(object(), "not a valid name!", [_RA], teardown_callback=cb)
+                    holder["refusal-missing"] = i
+                except ValueError:
+                    pass
         else:
 
             async def service():
@@ -307,7 +344,9 @@ def h2(a, tier):
         "block_ends_with": "Exception" if end else "return",
         "context": "nested" if nested else "root",
     }
-    order = list(reversed(range(n)))
+    if "refusal-missing" in holder:
+        return FAIL("routes-refusal-missing", f"item {holder['refusal-missing']}", summary)
+    order = [i for i in reversed(range(n)) if routes[i] != 5]
     exp_log = []
     for i in order:
         exp_log += [("begin", i), ("end", i)]
@@ -318,6 +357,8 @@ def h2(a, tier):
             return FAIL(f"routes-pass_exception:route={routes[i]}:end={end}", f"item {i} received {got!r}", summary)
     if not holder["ctx"].closed:
         return FAIL("not-closed", "", summary)
+    if _accepts_after_exit(holder["ctx"]):
+        return FAIL("routes-registration-accepted-after-exit", "", summary)
     if k.live_tasks():
         return FAIL("task-alive-after-exit", [t.name for t in k.live_tasks()], summary)
     raised = [excs[i] for i in order if i in excs]
@@ -335,7 +376,8 @@ H2 = Harness(
     cube=lambda tier: 3 if tier == "quick" else 4,
     title="one global LIFO order across the four registration routes",
     bound_text=lambda tier: f"n<={3 if tier == 'quick' else 4} items x route{{add_teardown_callback, add_resource(teardown_callback=), "
-    "@context_teardown, start_service_task}} x raises{no,Exception} x block end{return,Exception} x {root,nested}",
+    "@context_teardown, start_service_task, refused add_resource (conflict on the 2nd type) + retry, refused add_resource "
+    "(invalid name)}} x raises{no,Exception} x block end{return,Exception} x {root,nested}",
     oracle="one LIFO order over all routes (service task's end observed where its finalizer runs); generator and "
     "pass_exception callbacks receive the block's exception; outcome table; no task alive afterwards",
     outside="more items; BaseException from callbacks (H1); service tasks that raise (C08)",
@@ -521,6 +563,8 @@ def h4(a, tier):
             return FAIL("cancel-pass_exception:cancelled-body", f"received={info.get('received')!r} body={body!r}", summary)
     if not info["ctx"].closed:
         return FAIL("not-closed", "", summary)
+    if _accepts_after_exit(info["ctx"]):
+        return FAIL("cancel-registration-accepted-after-exit", f"log={log}", summary)
     left = info.get("left_with")
     cancelled_cbs = [i for ev, i in log if ev == "cancelled"]
     if left is not None and not all(isinstance(x, Cancelled) for x in flatten(left)):
